@@ -9,7 +9,7 @@ from . import common as C
 
 FAMILY = "bridge:c18"
 SHARDS = 12
-N_QUICK = 7200
+N_QUICK = 18000
 N_THOROUGH = 60000
 
 TRUSTED = [
@@ -20,8 +20,8 @@ TRUSTED = [
     "response bodies are compared as JSON trees: ids as raw text after encoding/json's HTML-safe re-encoding "
     "(<, >, &, U+2028, U+2029 inside string ids are written as \\u escapes by json.Marshal: same JSON value, counted in "
     "ids_reencoded), results as raw text, errors by code",
-    "testing/synctest's definition of durable blocking (quiescence oracle); quiescent stepping only (mode Q): the bridge adds "
-    "no critical section of its own, the interleavings of the shared client and server are C04's/C01's subject",
+    "testing/synctest's definition of durable blocking (quiescence oracle); verif hook points (add-only, no data); the bridge adds "
+    "no critical section of its own: its interleavings are those of the shared client (cli.req, cli.send, cli.deliver) and the server",
 ]
 ASSUMPTIONS = [
     "inner_ok: Client.Batch over the local server returns one reply per call spec, in spec order, under the ids the shared "
@@ -38,8 +38,8 @@ def _worker(seed, lo, hi, shard, tag=""):
     while cur < hi and len(crashes) < 3:
         pout = out + ".%d" % part
         env.update(VERIF_FROM=str(cur), VERIF_TO=str(hi), VERIF_OUT=pout)
-        rc, txt = C.sh([os.path.join(C.BUILD, "conc.test"), "-test.run", "^TestWorker$", "-test.timeout", "20m"],
-                       env=env, timeout=1500)
+        rc, txt = C.sh([os.path.join(C.BUILD, "conc.test"), "-test.run", "^TestWorker$", "-test.timeout", "8m"],
+                       env=env, timeout=540)
         logs.append(pout)
         prog = ""
         try:
@@ -64,7 +64,7 @@ def split_scenarios(lines):
     for i, l in enumerate(lines, 1):
         if l.startswith("scenario\t"):
             f = l.split("\t")
-            cur = dict(idx=int(f[3]), kind=f[4] if len(f) > 4 else "?", lines=[], complete=False)
+            cur = dict(idx=int(f[3]), kind=f[4] if len(f) > 4 else "?", policy=f[5] if len(f) > 5 else "q", lines=[], complete=False)
             out.append(cur)
         if cur is not None:
             cur["lines"].append((i, l))
@@ -229,6 +229,7 @@ def judge(ctx, res, logs, crashes):
             if nontrivial(sc):
                 distinct.add(C.sha(body))
             bump("scenario:" + sc["kind"])
+            bump("policy:" + sc["policy"])
             nposts = 0
             for _, l in sc["lines"]:
                 f = l.split("\t")
@@ -238,6 +239,8 @@ def judge(ctx, res, logs, crashes):
                     bump("shape:" + f[3])
                 elif f[0] == "idesc":
                     reenc += 1
+                elif f[0] == "ev" and f[1] == "sched":
+                    bump("sched_release:" + f[2])
                 elif f[0] == "Q":
                     bump("body:" + ("not-json" if f[6] == "B" else ("batch" if f[7] == "1" else "single")))
                     if f[8] != "-":
@@ -277,7 +280,8 @@ def judge(ctx, res, logs, crashes):
     res.distinct_nontrivial = len(distinct)
     res.samples = samples
     res.extra.update(http_requests_compared=nreq, distribution=dict(sorted(dist.items())), ids_reencoded=reenc,
-                     worker_crashes=len(crashes), modes="Q (quiescent stepping: launch / release one handler / synctest.Wait)")
+                     worker_crashes=len(crashes), modes="Q (quiescent stepping: launch / release one handler / synctest.Wait) and, for a third of the concurrent scenarios, "
+                     "S (goroutines parked at the verif scheduling points of the shared client and the server, released in a generated order)")
     res.rule = ("scenario = one real jhttp.Bridge (with/without ParseRequest and ParseGETRequest hooks, server concurrency 1/2/4/default) and "
                 "either (gate) the 46-entry Content-Type table x {POST, GET, PUT} x hook settings, one request per header value, or (conc) "
                 "1-6 concurrent POSTs whose bodies are drawn from the member basis (single / batch / one-element batch / empty batch / not "
